@@ -107,6 +107,146 @@ fn regime_of(d: &Data) -> &'static str {
 
 // ---------------------------------------------------------------------------------------------
 
+// ---------------------------------------------------------------------------------------------
+// joint slot/position structure of ONE call, resample by resample
+//
+// Pooled position frequencies are blind to the way positions are laid out over the slots: a resample
+// that is a verbatim copy of the data (or of its neighbour) uses every position exactly once and leaves
+// every pooled count where it belongs. With position-tagged data the layout can be read back, and under
+// the property (independent uniform positions in every slot) each of the following has a law that does
+// not depend on the library's algorithm:
+//   * F_r = number of fixed points of resample r (slot j holds position j) ~ Binomial(len, 1/len), so
+//     P(F_r >= k) <= C(len, k) / len^k <= 1/k!; the largest F_r is compared with the smallest k such that
+//     n_bootstrap / k! <= 1e-12 (k = 17 for up to 355 resamples). The total over the call is
+//     Binomial(len · n_bootstrap, 1/len): two-sided Chernoff bound exp(−N·KL(T/N ‖ 1/len)) < 0.5e-12.
+//   * A_r = number of slots in which resamples r and r+1 agree: the same law, the same bound.
+//   * D_r = number of distinct positions in resample r: a function of len independent draws that moves
+//     by at most 1 when one draw changes, so P(|D_r − E D| >= t) <= 2 exp(−2t²/len) (McDiarmid) with
+//     E D = len (1 − (1 − 1/len)^len); t solves 2 · n_bootstrap · exp(−2t²/len) = 1e-12.
+//   * two identical resamples / a resample identical to the data: probability len^−len per pair / per
+//     resample; asserted where the union bound over pairs (resamples) is below 1e-12 (len >= 14 at 200).
+// Each of the three assertions has a false-alarm probability <= 1e-12 per call by these bounds.
+
+/// smallest k with m / k! <= ALPHA
+fn factorial_threshold(m: f64) -> usize {
+    let (mut k, mut f) = (1usize, 1.0f64);
+    while m / f > ALPHA {
+        k += 1;
+        f *= k as f64;
+    }
+    k
+}
+
+/// Chernoff bound on P(X >= t) (t above the mean) or P(X <= t) (t below) for X ~ Binomial(n, p).
+fn chernoff_binomial(n: f64, p: f64, t: f64) -> f64 {
+    let q = t / n;
+    if q == p {
+        return 1.0;
+    }
+    let term = |a: f64, b: f64| if a <= 0.0 { 0.0 } else { a * (a / b).ln() };
+    (-n * (term(q, p) + term(1.0 - q, 1.0 - p))).exp()
+}
+
+fn row_structure(rep: &mut Report, d: &Data, out: &[Vec<f64>], regime: &str, seed: Option<u64>) {
+    let n = d.x.len();
+    let nb = out.len();
+    if d.class != Class::Distinct || n < 2 || nb == 0 || out.iter().any(|r| r.len() != n) {
+        return;
+    }
+    // positions, resample by resample (membership failures are reported by the caller)
+    let mut pos: Vec<Vec<u32>> = Vec::with_capacity(nb);
+    for r in out {
+        let mut row = Vec::with_capacity(n);
+        for &v in r {
+            match d.decode(v) {
+                Some(p) => row.push(p as u32),
+                None => return,
+            }
+        }
+        pos.push(row);
+    }
+    rep.seen("cover:bootstrap:rows", 1);
+    let head = |obs: Value| json!({"fn": "bootstrap", "data": if n <= 64 { jf(&d.x) } else { json!("position-tagged: a permutation of 0.25, 1.25, ..., len-0.75") }, "len": n, "n_bootstrap": nb, "alea_seed": seed, "observed": obs});
+    let nf = n as f64;
+    // ---- fixed points
+    let fixed: Vec<usize> = pos.iter().map(|row| row.iter().enumerate().filter(|&(j, &p)| p as usize == j).count()).collect();
+    let k_fix = factorial_threshold(nb as f64);
+    let (worst_r, worst_f) = fixed.iter().copied().enumerate().max_by_key(|&(_, f)| f).unwrap();
+    let total: usize = fixed.iter().sum();
+    let draws = nf * nb as f64;
+    let total_bound = chernoff_binomial(draws, 1.0 / nf, total as f64);
+    rep.note_max("worst.bootstrap.rows.max_fixed_points", worst_f as f64);
+    rep.note_max("worst.bootstrap.rows.total_fixed_points(-log10 bound)", -total_bound.max(1e-300).log10());
+    let mut failures: Vec<Value> = Vec::new();
+    if worst_f >= k_fix {
+        let many: Vec<usize> = (0..nb).filter(|&r| fixed[r] >= k_fix).collect();
+        failures.push(json!({"test": "fixed points of one resample: Binomial(len, 1/len), P(F >= k) <= 1/k!, Bonferroni over resamples", "resample": worst_r, "fixed_points": worst_f, "threshold_k": k_fix,
+                             "false_alarm_bound": nb as f64 / (1..=k_fix).map(|q| q as f64).product::<f64>(), "resamples_at_or_above_threshold": many[..many.len().min(32)]}));
+    }
+    if total_bound < 0.5 * ALPHA {
+        failures.push(json!({"test": "fixed points of the whole call: Binomial(len*n_bootstrap, 1/len), Chernoff bound", "fixed_points": total, "expected": nb, "bound_on_tail_probability": total_bound}));
+    }
+    rep.check("C19.bootstrap.rows.fixed_points", regime, failures.is_empty(), || head(json!({"failed": failures, "fixed_points_per_resample_first": fixed[..nb.min(32)], "fixed_points_per_resample_last": fixed[nb - nb.min(32)..]})));
+    // ---- distinct positions
+    let e_d = nf * (1.0 - (1.0 - 1.0 / nf).powf(nf));
+    let t = (nf / 2.0 * (2.0 * nb as f64 / ALPHA).ln()).sqrt();
+    let mut stamp = vec![u32::MAX; n];
+    let distinct: Vec<usize> = pos
+        .iter()
+        .enumerate()
+        .map(|(r, row)| {
+            let mut c = 0;
+            for &p in row {
+                if stamp[p as usize] != r as u32 {
+                    stamp[p as usize] = r as u32;
+                    c += 1;
+                }
+            }
+            c
+        })
+        .collect();
+    let (wr, wd) = distinct.iter().copied().enumerate().max_by(|a, b| (a.1 as f64 - e_d).abs().partial_cmp(&(b.1 as f64 - e_d).abs()).unwrap()).unwrap();
+    rep.note_max("worst_ratio.bootstrap.rows.distinct_positions(dev/threshold)", (wd as f64 - e_d).abs() / t);
+    rep.check("C19.bootstrap.rows.distinct_positions", regime, (wd as f64 - e_d).abs() <= t, || {
+        head(json!({"test": "distinct positions in one resample: McDiarmid bound around len(1-(1-1/len)^len), Bonferroni over resamples", "resample": wr, "distinct_positions": wd, "expected": e_d, "threshold_abs_deviation": t,
+                    "distinct_per_resample_first": distinct[..nb.min(32)], "distinct_per_resample_last": distinct[nb - nb.min(32)..]}))
+    });
+    // ---- repeated resamples
+    let mut failures: Vec<Value> = Vec::new();
+    let ln_one = -nf * nf.ln(); // ln P(two given resamples coincide) = ln P(a given resample is the data)
+    if nb >= 2 {
+        let k_agree = factorial_threshold((nb - 1) as f64);
+        let agree: Vec<usize> = (0..nb - 1).map(|r| pos[r].iter().zip(&pos[r + 1]).filter(|(a, b)| a == b).count()).collect();
+        let (ar, am) = agree.iter().copied().enumerate().max_by_key(|&(_, a)| a).unwrap();
+        rep.note_max("worst.bootstrap.rows.max_agreement_of_consecutive_resamples", am as f64);
+        if am >= k_agree {
+            failures.push(json!({"test": "slots in which two consecutive resamples agree: Binomial(len, 1/len), P(A >= k) <= 1/k!, Bonferroni over pairs", "resamples": [ar, ar + 1], "agreeing_slots": am, "threshold_k": k_agree}));
+        }
+        if (nb as f64 * (nb - 1) as f64 / 2.0).ln() + ln_one <= ALPHA.ln() {
+            let mut first: std::collections::HashMap<&[u32], usize> = std::collections::HashMap::new();
+            let mut dup = None;
+            for (r, row) in pos.iter().enumerate() {
+                if let Some(&q) = first.get(row.as_slice()) {
+                    dup = Some((q, r));
+                    break;
+                }
+                first.insert(row.as_slice(), r);
+            }
+            if let Some((q, r)) = dup {
+                failures.push(json!({"test": "two identical resamples (probability len^-len per pair)", "resamples": [q, r], "ln_false_alarm_bound": (nb as f64 * (nb - 1) as f64 / 2.0).ln() + ln_one}));
+            }
+            rep.seen("cover:bootstrap:rows:identical-pairs-decidable", 1);
+        }
+    }
+    if (nb as f64).ln() + ln_one <= ALPHA.ln() {
+        let copies: Vec<usize> = (0..nb).filter(|&r| fixed[r] == n).collect();
+        if !copies.is_empty() {
+            failures.push(json!({"test": "a resample identical to the data (probability len^-len per resample)", "resamples": copies[..copies.len().min(32)], "how_many": copies.len()}));
+        }
+    }
+    rep.check("C19.bootstrap.rows.repeated", regime, failures.is_empty(), || head(json!({"failed": failures})));
+}
+
 fn check_bootstrap(rep: &mut Report, d: &Data, nb: usize, seed: u64, tag: &str) {
     let regime_s = format!("{}{}", tag, regime_of(d));
     let regime = regime_s.as_str();
@@ -160,6 +300,7 @@ fn check_bootstrap(rep: &mut Report, d: &Data, nb: usize, seed: u64, tag: &str) 
     if d.class != Class::Distinct || !member_ok || n < 2 || badlen.is_some() || out.len() != nb {
         return;
     }
+    row_structure(rep, d, &out, regime, Some(seed));
     let total: u64 = counts.iter().sum();
     let nf = n as f64;
     let mut failures: Vec<Value> = Vec::new();
@@ -496,7 +637,8 @@ fn position_census(cfg: &Cfg, rep: &mut Report) {
         let mut not_counted = 0u64;
         for _ in 0..calls {
             rep.case("positions:len>=600");
-            alea::set_seed(rng.u64() | 1);
+            let call_seed = rng.u64() | 1;
+            alea::set_seed(call_seed);
             match guard(|| bootstrap(&d.x, nb)) {
                 Ok(out) => {
                     for &v in out.iter().flatten() {
@@ -505,6 +647,8 @@ fn position_census(cfg: &Cfg, rep: &mut Report) {
                             None => not_counted += 1,
                         }
                     }
+                    // the same calls, resample by resample (jobs of len x 200 draws: the top of the quantifier)
+                    row_structure(rep, &d, &out, "positions:len>=600", Some(call_seed));
                 }
                 Err(_) => not_counted += 1,
             }
@@ -671,14 +815,89 @@ fn pair_census(cfg: &Cfg, rep: &mut Report) {
     });
 }
 
+// ---------------------------------------------------------------------------------------------
+// the top corner of the quantifier: lengths up to 2000 x up to 200 resamples in ONE call
+//
+// Work that is split by size (blocks of rows, chunks of draws, a parallel path above some number of
+// draws) only exists up here, and its edges (a last partial block, the first call above a threshold) are
+// functions of BOTH factors: n_bootstrap walks every residue modulo 32 just below 200, lengths sit at
+// and around the round values and at the places where len · n_bootstrap crosses a power of two
+// (2^15 .. 2^18: the draws of a job are the natural unit of such thresholds). Every job gets the full
+// per-call treatment of `check_bootstrap` (count, lengths, membership, pooled uniformity, and the
+// resample-by-resample structure); every fourth also the jackknife and both shuffles at that length,
+// with the gross-bias check (every position moves within 64 shuffles) that the ordinary cases only run
+// up to length 200.
+fn corner_jobs(cfg: &Cfg, rng: &mut Rng) -> Vec<(usize, usize)> {
+    if cfg.miri() {
+        return vec![(24, 3)];
+    }
+    let mut jobs: Vec<(usize, usize)> = Vec::new();
+    // every residue of n_bootstrap modulo 32 at the top, lengths at the top
+    for q in 0..32usize {
+        let nb = 200 - q;
+        let len = match q % 4 {
+            0 => 2000,
+            1 => rng.usize(1900, 2000),
+            2 => *rng.choose(&[1999usize, 1500, 1024, 1536, 1800]),
+            _ => rng.usize(1311, 2000),
+        };
+        jobs.push((len, nb));
+    }
+    // the places where len * n_bootstrap crosses a power of two
+    for k in 15..=18u32 {
+        for nb in [200usize, 199, 193, 150, 128, 100, 77] {
+            let len = (1usize << k).div_ceil(nb);
+            if (2..=2000).contains(&len) {
+                jobs.push((len, nb)); // first length at or above 2^k draws
+                jobs.push((len - 1, nb)); // last one below
+            }
+        }
+    }
+    // anywhere in the upper half of both ranges
+    let extra = cfg.pick(12, 200, 0);
+    for _ in 0..extra {
+        jobs.push((rng.usize(1000, 2000), rng.usize(100, 200)));
+    }
+    if cfg.lite {
+        jobs = jobs.into_iter().step_by(10).collect();
+    }
+    jobs
+}
+
+fn corner_family(cfg: &Cfg, rep: &mut Report) {
+    let jobs = corner_jobs(cfg, &mut Rng::new(crate::report::case_seed(cfg.seed, 7, u64::MAX)));
+    par_cases(cfg, rep, 7, jobs.len(), |i, rng, rep| {
+        let (n, nb) = jobs[i];
+        let class = match i % 16 {
+            7 => Class::Repeated,
+            15 => Class::Special,
+            _ => Class::Distinct,
+        };
+        let d = make_data(rng, n, class);
+        let seed = rng.u64() | 1;
+        rep.distinct(Hasher::new().s("corner").fs(&d.x).u(nb as u64).u(seed).finish(), true);
+        rep.seen(&format!("cover:corner:n_bootstrap mod 16 = {}", nb % 16), 1);
+        if n * nb >= 1 << 18 {
+            rep.seen("cover:corner:draws>=2^18", 1);
+        }
+        check_bootstrap(rep, &d, nb, seed, "corner:");
+        if i % 4 == 0 {
+            check_jackknife(rep, &d, "corner:");
+            check_shuffle(rep, &d, seed ^ 0x5555, true, "corner:");
+            check_shuffle_two(rep, &d, seed ^ 0xAAAA, "corner:");
+        }
+    });
+}
+
 pub fn run(cfg: &Cfg, rep: &mut Report) {
-    rep.rule = "per case: length n from {1, 2, 3..10, 11..100, 101..2000, 2000, 1..64, 1..2000}, data class (tagged distinct values = random permutation of 0..n plus 0.25; repeated values from a pool of <= 4; special values ±0, ±inf, NaN, subnormals with ties), 1..200 resamples, own alea seed; bootstrap, jackknife, shuffle and shuffle_two are each run and checked. non-trivial = n >= 2; distinct by (data bits, n_bootstrap, seed). Fault injection: lengths 1, 2, 3, 5, 16, 100, 255..257, 1000, 1024, 1500, 1999, 2000 and 10 (100) random, 8 adversarial alea states x word position 0..5 and two random positions inside the call, all four functions with the per-call checks. Pairing census: 64 (640) chunks x 1024 seeded shuffle_two calls, lengths 2000 (every second call) and 1000..=2000, x increasing / y decreasing (3 chunks of 4) or independent permutations".into();
+    rep.rule = "per case: length n from {1, 2, 3..10, 11..100, 101..2000, 2000, 1..64, 1..2000}, data class (tagged distinct values = random permutation of 0..n plus 0.25; repeated values from a pool of <= 4; special values ±0, ±inf, NaN, subnormals with ties), 1..200 resamples, own alea seed; bootstrap, jackknife, shuffle and shuffle_two are each run and checked. non-trivial = n >= 2; distinct by (data bits, n_bootstrap, seed). Fault injection: lengths 1, 2, 3, 5, 16, 100, 255..257, 1000, 1024, 1500, 1999, 2000 and 10 (100) random, 8 adversarial alea states x word position 0..5 and two random positions inside the call, all four functions with the per-call checks. Pairing census: 64 (640) chunks x 1024 seeded shuffle_two calls, lengths 2000 (every second call) and 1000..=2000, x increasing / y decreasing (3 chunks of 4) or independent permutations. Corner family: one call per job, jobs = n_bootstrap 169..=200 (every residue modulo 32) x lengths 1311..2000 (2000, 1999, 1800, 1536, 1500, 1024 and random), the two lengths on either side of len*n_bootstrap = 2^15..2^18 for n_bootstrap in {200, 199, 193, 150, 128, 100, 77}, and 12 (200) random jobs in 1000..2000 x 100..200; full per-call checks, every fourth job also jackknife / shuffle (64 repeats: every position moves) / shuffle_two. Resample-by-resample structure (every call on position-tagged data, including the 200-resample calls of the position census): fixed points, distinct positions, agreement of consecutive resamples, identical resamples, resamples identical to the data".into();
     rep.assume("length 0 is outside the quantifier (\"every length from 1 upward\")");
     rep.assume("shuffle uniformity is not part of the property (only 'a permutation of its input'): outcome frequencies for n <= 4 are recorded as evidence; asserted is only gross bias (an outcome that never occurs in >= 2e4 shuffles, a position that never changes in 64 shuffles)");
     rep.assume("bootstrap uniformity is additionally tested on draws pooled over many calls of a fixed shape, alea re-seeded per call: (a) every (resample, slot) -> position cell for len 1..=6 x n_bootstrap 1..=4 (4e4 calls per shape quick, 4e5 thorough) and for 8 (32) shapes with len 7..=64, n_bootstrap 1..=5 in all parity classes (400 (1000) x len calls): no cell empty when its expected count is >= 200 (false alarm < 1e-80), largest cell deviation within the Bernstein bound at 1e-12 Bonferroni-corrected over the cells (rigorous), chi2 over all cells at 1e-12; (b) position frequencies at len 1000, 1500, 2000 and three lengths in 600..2000 drawn per seed, 3.2e7 (2e8) draws pooled per length from calls with 200 resamples: largest position deviation within the Bernstein bound at 1e-12 Bonferroni-corrected over the positions, chi2 over positions at 1e-12 (power: a 3 % weight deficit on a quarter of the positions at len 2000 lies 30 sd beyond the critical value)");
     rep.assume("fault injection reaches raw generator words with an all-ones / all-zero 32-bit half at a chosen position of the call (the 8 states of gen::ADVERSARIAL_ALEA); other rare words are not injected");
     rep.assume("pairing census: exact per-call check, no statistics; a defect unpairing a call with probability q is missed with probability (1-q)^65536 in the quick tier (q = 5e-4: 6e-15)");
     rep.assume("bootstrap index uniformity is tested on the pooled draws of one call: DKW band and χ² (bins with expected count >= 16, by contiguous index blocks and by residue classes) at α = 1e-12 each, plus 'every index drawn' when n·exp(−expected) < 1e-12");
+    rep.assume("resample-by-resample structure of a bootstrap call on position-tagged data, each assertion with a false-alarm probability <= 1e-12 per call under independent uniform positions: (fixed_points) max over resamples of the number of slots j holding position j below the smallest k with n_bootstrap/k! <= 1e-12 (P(Binomial(len,1/len) >= k) <= 1/k!), and the total over the call inside the two-sided Chernoff bound for Binomial(len*n_bootstrap, 1/len) at 0.5e-12 per side; (distinct_positions) every resample within sqrt(len/2 * ln(2*n_bootstrap/1e-12)) of len(1-(1-1/len)^len) (McDiarmid); (repeated) consecutive resamples agree in fewer than k slots (same bound as fixed points), no two resamples identical and no resample identical to the data where n_bootstrap^2/2 * len^-len (n_bootstrap * len^-len) <= 1e-12");
     let n_cases = cfg.pick(400, 10_000, 4);
     par_cases(cfg, rep, 1, n_cases, |i, rng, rep| {
         let n = match i % 8 {
@@ -718,6 +937,20 @@ pub fn run(cfg: &Cfg, rep: &mut Report) {
     position_census(cfg, rep);
     inject_family(cfg, rep);
     pair_census(cfg, rep);
+    corner_family(cfg, rep);
+    rep.require("cover:bootstrap:rows", 1);
+    rep.require("corner:len>=2:distinct", 1);
+    if !cfg.lite {
+        rep.require("corner:len>=2:distinct", 60);
+        rep.require("cover:corner:draws>=2^18", 30);
+        rep.require("cover:bootstrap:rows:identical-pairs-decidable", 60);
+        for r in 0..16 {
+            rep.require(&format!("cover:corner:n_bootstrap mod 16 = {}", r), 2);
+        }
+        for f in ["jackknife", "shuffle", "shuffle_two"] {
+            rep.require(&format!("cover:{}:corner:len>=2:distinct", f), 1);
+        }
+    }
     for r in ["inject:len=1", "inject:len>=2:distinct"] {
         for f in ["bootstrap", "jackknife", "shuffle", "shuffle_two"] {
             rep.require(&format!("cover:{}:{}", f, r), 1);
